@@ -818,8 +818,18 @@ func c14r2(c *Ctx) {
 				}
 				for _, cs := range cases {
 					construct := fmt.Sprintf("writer: buf[0] = %s @b%d", cs.desc, b.Index)
-					underNeg := cs.holds(func(f Fact) bool { return f.Lin && f.LE.String() == neg })
-					underNonNeg := cs.holds(func(f Fact) bool { return f.Lin && f.LE.String() == nonneg })
+					// Sign() is -1, 0 or 1: `== -1` is `< 0`, `!= -1` is `>= 0`, `== 1 || == 0` likewise
+					signAtom := leAtom("Sign(" + a + ")")
+					rangeOf := []LE{signAtom.addK(1), signAtom.scale(-1).addK(1)}
+					underNeg := cs.holds(func(f Fact) bool {
+						return f.Lin && (f.LE.String() == neg || entails(append([]LE{f.LE}, rangeOf...), signAtom.scale(-1).addK(-1), nonNegAtom))
+					})
+					underNonNeg := cs.holds(func(f Fact) bool {
+						if !f.Lin {
+							return !f.Pos && f.Atom == "zero("+signAtom.addK(1).String()+")"
+						}
+						return f.LE.String() == nonneg || entails(append([]LE{f.LE}, rangeOf...), signAtom, nonNegAtom)
+					})
 					underNil := cs.holds(nilPred(a))
 					switch {
 					case cs.isC && cs.v == 1 && underNeg:
